@@ -6,8 +6,9 @@ Parts / finite scope (quick | thorough):
     peer on own gateway other host, peers behind other gateways) x 2 own identities (named, empty gateway/host);
     every ordered list of 1..3 | 1..4 kinds, for each of show/get/set/unset.
  B  SourcedStateBackend.show/get/set/unset on a recording subclass + recording fake transport: every subset of
-    {own, shared, swarm, cluster} (16) x source lists (all ordered 1..2, size 3: one seeded order of every combination,
-    capped | all) x every placement of states among sources x local copy present/absent x compare valid/invalid.
+    {own, shared, swarm, cluster} (16) x source lists (all ordered 1..2; size 3: 36 seeded shuffled combinations | every
+    combination in 2 orders) x every placement of states among sources x local copy present/absent x compare valid/invalid.
+    Part B runs last under a time budget (100 s | 1100 s); if it is cut short, `exhaustive` is false.
  C  RootSourcedStateBackend.check/get/set/unset_root: every pool_scope string (ordered subsets) x local/pool/equal.
  D  TransferOps.compare/download/upload/delete in plain (":path") and link (":pool;/path") mode on real temp dirs: every
     cache pre-state (absent, no dir, file of each content, link to pool file, link into another pool, dead link) x every
@@ -645,12 +646,18 @@ def child(root, path, logf, n, ops):
 
 
 # ---------------------------------------------------------------- enumeration
-PARTS = {"scope": scope_case, "order": order_case, "backend": backend_case, "root": root_case,
+def const_case(inp):
+    ok = pool.SKIP_LOCKS is False
+    return [] if ok else [fail("lock_discipline", repr(pool.SKIP_LOCKS), False, "skip_locks_enabled")]
+
+
+PARTS = {"const": const_case, "scope": scope_case, "order": order_case, "backend": backend_case, "root": root_case,
          "transfer": transfer_case, "lock": lock_case}
 
 
 def gen(tier, rnd):
     kinds = list(KINDS)
+    yield {"part": "const"}
     for ident in (0, 1):
         for k in kinds:
             for colon in (False, True):
@@ -660,7 +667,7 @@ def gen(tier, rnd):
                 dos = ("show", "get", "set", "unset")
                 for do in dos if n < 3 else dos[len(ks[0] + ks[-1]) % 4:][:1]:
                     yield {"part": "order", "ident": ident, "kinds": list(ks), "do": do}
-    strs = [" ".join(p) for n in range(0, 3) for p in itertools.permutations(SCOPES, n)] + \
+    strs = [" ".join(p) for n in (1, 2, 0) for p in itertools.permutations(SCOPES, n)] + \
            [" ".join(c) for n in (3, 4) for c in itertools.combinations(SCOPES, n)]
     for op, s, local, pl, same in itertools.product(("check", "get", "set", "unset"), strs, (False, True), (False, True), (False, True)):
         yield {"part": "root", "op": op, "scope_str": s, "local": local, "pool": pl, "same": same}
@@ -747,10 +754,8 @@ def main():
     t0, cases, seen, per_class, failures, counts, obl, samples = time.time(), 0, set(), {}, [], {}, {}, []
     exhaustive = True
     part_ob = {"scope": ["scope_table"], "order": ["sources_proximity_order"], "root": ["root_scope_gate", "refusals"],
-               "transfer": ["transfer_exact", "lock_discipline"], "lock": ["lock_discipline"]}
+               "transfer": ["transfer_exact", "lock_discipline"], "lock": ["lock_discipline"], "const": ["lock_discipline"]}
     op_ob = {"show": "show_subset", "get": "get_closest_and_only_if_different", "set": "set_unset_every_mirror", "unset": "set_unset_every_mirror"}
-    if pool.SKIP_LOCKS is not False:
-        failures.append(dict(fail("lock_discipline", repr(pool.SKIP_LOCKS), False, "skip_locks_enabled"), input={"part": "const"}))
     for inp in gen(tier, rnd):
         part = inp["part"]
         if part == "backend" and time.time() - t0 > budget:
@@ -779,8 +784,10 @@ def main():
                    "every scope/root/lock case",
            "bound": f"tier={tier}: 11 source kinds x 2 identities; source lists <= 3 (orders: all for <= 2, "
                     f"{'36 sampled shuffled triples' if tier == 'quick' else 'every triple in 2 orders'}); 16 scope subsets; listings per source "
-                    f"in {{[],[s],[s,t]{'' if tier == 'quick' else ',[t]'}}}; 27 root scope strings; 8 cache x 4 pool pre-states x 4 ops x 2 modes + 1MiB+1 pairs; "
-                    f"lock: inject at call 0..7 of 6 ops, timeouts 1,2,3,5, {'2..3' if tier == 'quick' else '2..8'} processes",
+                    f"in {{[],[s],[s,t]{' (+[t] for single sources)' if tier == 'quick' else ',[t]'}}}; 27 root scope strings; 8 cache x 4 pool pre-states x 4 ops x 2 modes + 1MiB+1 pairs; "
+                    f"lock: inject at call 0..7 of 6 ops, timeouts 1,2,3,5, "
+                    f"all 9 two-process op pairs + {'6 seeded op assignments of 3' if tier == 'quick' else '12 seeded op assignments of each of 3..8'} "
+                    f"forked processes (OS-scheduled, bracketed log)",
            "exhaustive": bool(exhaustive and tier != "quick"), "samples": samples, "failures": failures[:10],
            "failure_counts": counts, "seconds": round(time.time() - t0, 1)}
     print("BOUNDED-RESULT " + json.dumps(res, default=str))
